@@ -83,7 +83,10 @@ impl Vm {
                 return Err(ParserState::new(state.position().line_of()));
             }
         }
+        // Only names the grammar does not define are built-ins (as in the generated parser):
+        // `ASCII_DIGIT`, `NEWLINE`, ... are not keywords and may be redefined by the user.
         match rule {
+            _ if self.rules.contains_key(rule) => (),
             "ANY" => return state.skip(1),
             "EOI" => return state.rule("EOI", |state| state.end_of_input()),
             "SOI" => return state.start_of_input(),
